@@ -183,6 +183,17 @@ CLAIMED = {
         "reproduces).",
         "5/C13",
     ),
+    "C20": (
+        "hypothesis histories with recording plugin classes against a protocol predictor (+ plugin-folder subprocess)",
+        "Recording subclasses of AbstractFieldFormat / AbstractCheck log every call; generated CIDs (1-4 fields, 0-3 "
+        "recording checks mixed with built-ins, delimited and fixed, header 0-2, allowed characters) and 1-3 "
+        "consecutive runs on one Cid (reader in three modes, Reader.rows()+close(), Writer, validation limit, second "
+        "close) are compared call by call with a predictor written from the statement; class resolution through "
+        "import_plugins(folder) is exercised in subprocesses.",
+        "Where the statement admits several call sequences (remaining end-of-data verdicts after a failing one, "
+        "when exactly verdicts run) every admissible sequence is accepted.",
+        "5/C20",
+    ),
 }
 
 NOT_APPLICABLE = {}
